@@ -1,6 +1,6 @@
 (* C05 — tree_map family calls the function once per leaf, in order, on aligned arguments. *)
-From OptreeModel Require Import Base Tree Flatten Unflatten Spec Ops.
-From OptreeProofs Require Import OpsProofs.
+From OptreeModel Require Import Base Tree Flatten Unflatten Spec Ops Walk.
+From OptreeProofs Require Import OpsProofs WalkProofs.
 
 (* f is called exactly on the rows (leaf_i(t), sub_i(rest_1), ...): once per leaf, in flatten
    order, where sub_i(rest) is the i-th element flatten_up_to returns (the subtree at the i-th leaf's
@@ -39,6 +39,27 @@ Theorem C05_map_underscore :
   forall c f t rests r, tree_map c f t rests = Ok r -> tree_map_ c f t rests = Ok t.
 Proof. exact map_underscore. Qed.
 Print Assumptions C05_map_underscore.
+
+(* PyTreeSpec.traverse. With no functions (or identities) it is unflatten. *)
+Theorem C05_traverse_identity :
+  forall s leaves, fst (traverse None None s leaves) = unflatten s leaves.
+Proof. exact traverse_identity. Qed.
+Print Assumptions C05_traverse_identity.
+
+(* For any leaf function and node function (partial ones included: a raising call stops the traversal
+   with that exception), the engine's stack machine over the node array is the tree recursion twalk:
+   the leaf function is applied to the leaves in leaf order, the node function exactly once per
+   internal node, to the node rebuilt from its already processed children, after all of them. *)
+Theorem C05_traverse_is_tree_recursion :
+  forall fl fn s leaves, wf_stree (stree_of s) = true ->
+  traverse fl fn (spec_of s) leaves =
+  match twalk fl fn (stree_of s) (leaves, 0%nat, 0%nat, []) with
+  | (Ok y, ([], _, _, tr')) => (Ok y, tr')
+  | (Ok _, (_ :: _, _, _, tr')) => (Err ValueError, tr')
+  | (Err e, (_, _, _, tr')) => (Err e, tr')
+  end.
+Proof. exact traverse_is_tree_recursion. Qed.
+Print Assumptions C05_traverse_is_tree_recursion.
 
 Example C05_example :
   let c := {| c_nil := false; c_ns := 0; c_pred := None; c_reg := []; c_ins := []; c_limit := 1000 |} in
